@@ -10,8 +10,18 @@
 // in-memory ones, in group order (the generator keeps the file names of such a run distinct);
 //   missing <hex name>                  a report that should be on disk is not
 //   file lines for anything else found in the directory follow, sorted by name.
+// Command-line sub-mode (`cli` before `run`): the registry is run by the real CommandLineTestRunner::runAllTestsMain with
+//   argv = -ojunit [-k package] [-r<n>] [-v | -vv] [-n | -sn | -xn | -xsn  pattern]
+// (joined and separate spellings both used), i.e. through CommandLineArguments, createJUnitOutput/setPackageName, with -v / -vv
+// the CompositeTestOutput in front of the JUnit output and a ConsoleTestOutput (whose text goes to the stdout seam and is
+// dropped here), the runner's own repeat loop, and the destruction of the output object by the runner.
+//   cli-exit <n>                        what runAllTestsMain returned (failed test count, or failed runs)
+// `timestr <hex>` sets what the stubbed GetPlatformSpecificTimeString returns (an environment input; reported as `timestamp`).
+// `realtime` leaves GetPlatformSpecificTimeString at the platform's implementation (src/Platforms/Gcc/UtestPlatform.cpp: time,
+// localtime, strftime); the `timestamp` line then reports what the first written file carries (the file lines follow it).
 #include "h_c16_util.h"
 #include "CppUTest/JUnitTestOutput.h"
+#include "CppUTest/CommandLineTestRunner.h"
 #include <dirent.h>
 #include <sys/stat.h>
 
@@ -19,6 +29,8 @@ namespace {
 
 struct MemFile { std::string name, content; bool open; };
 std::vector<MemFile*> g_files;
+bool g_defer = false;                  // `realtime`: the file lines wait until the time string is known
+std::vector<MemFile*> g_deferred;
 
 PlatformSpecificFile mem_fopen(const char* filename, const char* flag) {
     MemFile* f = new MemFile();
@@ -41,6 +53,7 @@ void mem_fclose(PlatformSpecificFile file) {
     if (!f) return;
     if (!f->open) { vh::emit("double-close %s", vh::hex(f->name).c_str()); return; }
     f->open = false;
+    if (g_defer) { g_deferred.push_back(f); return; }
     vh::emit("file %s %s", vh::hex(f->name).c_str(), vh::hex(f->content).c_str());
 }
 void no_flush() {}
@@ -138,8 +151,43 @@ void run_real_io(const vo::Registry& reg) {
         vh::emit("crash realio-child %s", WEXITSTATUS(st) == 77 ? "asan" : WEXITSTATUS(st) == 78 ? "ubsan" : "exit");
 }
 
+int run_cli(const vo::Registry& reg) {
+    vo::stub_clock();
+    vo::Built b(reg);
+    std::vector<std::string> args;
+    args.push_back("h_c16");
+    if (reg.verbosity == 1) args.push_back("-v");
+    args.push_back("-ojunit");
+    if (!reg.package.empty()) {
+        if (reg.package.size() % 2) args.push_back("-k" + reg.package);
+        else { args.push_back("-k"); args.push_back(reg.package); }
+    }
+    if (reg.repeat > 1 || reg.scripts.size() % 2) {
+        char n[8]; snprintf(n, sizeof n, "%d", reg.repeat);
+        if (reg.scripts.size() % 3 == 0) { args.push_back("-r"); args.push_back(n); }
+        else args.push_back(std::string("-r") + n);
+    }
+    if (reg.has_filter) {
+        std::string flag = reg.invert ? (reg.strict ? "-xsn" : "-xn") : (reg.strict ? "-sn" : "-n");
+        if (!reg.filter.empty() && reg.filter.size() % 2) args.push_back(flag + reg.filter);
+        else { args.push_back(flag); args.push_back(reg.filter); }
+    }
+    if (reg.verbosity == 2) args.push_back("-vv");
+    std::vector<const char*> av;
+    for (size_t i = 0; i < args.size(); i++) av.push_back(args[i].c_str());
+    int rc;
+    {
+        CommandLineTestRunner runner((int) av.size(), &av[0], &b.reg);
+        rc = runner.runAllTestsMain();
+    }
+    return rc;
+}
+
+std::string g_time_text;
+
 void run_case(const vh::Case& c) {
     vo::Registry reg;
+    bool cli = false;
     if (!g_real_fopen) { g_real_fopen = PlatformSpecificFOpen; g_real_fputs = PlatformSpecificFPuts; g_real_fclose = PlatformSpecificFClose; }
     PlatformSpecificFOpen = mem_fopen;
     PlatformSpecificFPuts = mem_fputs;
@@ -149,16 +197,43 @@ void run_case(const vh::Case& c) {
         const vh::Words& w = c.ops[i];
         if (w[0] == "run" && w.size() == 1) {
             vh::emit_op("run");
-            vh::emit("timestamp %s", vh::hex(std::string(vo::fake_time_string())).c_str());
+            bool realtime = vo::g_real_time_string && !reg.realio;
+            if (reg.realio) vo::g_real_time_string = false;
+            if (!realtime) vh::emit("timestamp %s", vh::hex(std::string(vo::fake_time_string())).c_str());
             if (reg.realio) { run_real_io(reg); continue; }
+            g_defer = realtime; g_deferred.clear();
             size_t first = g_files.size();
-            {
+            int rc = 0;
+            if (cli) rc = run_cli(reg);
+            else {
                 JUnitTestOutput out;
                 out.setPackageName(SimpleString(reg.package.c_str()));
                 vo::run_registry(reg, out);
             }
+            if (realtime) {
+                std::string ts = vo::g_platform_time_string ? vo::g_platform_time_string() : "";
+                if (!g_deferred.empty()) {
+                    const std::string& body = g_deferred[0]->content;
+                    size_t a = body.find("timestamp=\"");
+                    if (a != std::string::npos) {
+                        size_t b = body.find('"', a + 11);
+                        ts = body.substr(a + 11, b == std::string::npos ? std::string::npos : b - a - 11);
+                    }
+                }
+                vh::emit("timestamp %s", vh::hex(ts).c_str());
+                for (size_t k = 0; k < g_deferred.size(); k++)
+                    vh::emit("file %s %s", vh::hex(g_deferred[k]->name).c_str(), vh::hex(g_deferred[k]->content).c_str());
+                g_defer = false;
+                vo::g_real_time_string = false;        // applies to one run only
+            }
+            if (cli) vh::emit("cli-exit %d", rc);
             for (size_t k = first; k < g_files.size(); k++)
                 if (g_files[k]->open) vh::emit("unclosed %s", vh::hex(g_files[k]->name).c_str());
+        }
+        else if (w[0] == "cli" && w.size() == 1) { cli = true; vh::emit_op("cli"); }
+        else if (w[0] == "realtime" && w.size() == 1) { vo::g_real_time_string = true; vh::emit_op("realtime"); }
+        else if (w[0] == "timestr" && w.size() == 2 && vo::is_hex(w[1])) {
+            g_time_text = vh::unhex(w[1]); vo::g_time_string = g_time_text.c_str(); vh::emit_op(vo::join(w));
         }
         else if (vo::apply_op(reg, w)) vh::emit_op(vo::join(w));
         else vh::emit("> skip");
